@@ -257,5 +257,23 @@ def run_case(case, rec):
             if (p.returncode == 0) != clean:
                 rec.violation('cli-exit-status', f'python -m wn validate exits {p.returncode} although the report is {"empty" if clean else "not empty"}; '
                               f'stderr {p.stderr[-300:]}')
+            # a file with several lexicons: the exit status is 0 iff *every* report is empty
+            good = doc.gen_lexicon(random.Random(5), v, 'good', '1', doc.Profile(relations=False, max_entries=1, max_synsets=1, hostile=0, ili='none',
+                                                                                 p_opt=0, blank_text=0, members=0))
+            for e in good.get('entries', []):
+                e.setdefault('senses', [{'id': e['id'] + '-s', 'synset': good['synsets'][0]['id'], 'meta': None}])
+            good_rep = validate(copy.deepcopy(good), progress_handler=None)
+            good_clean = not any(good_rep[c]['items'] for c in good_rep)
+            for order in ([lex, good], [good, lex]):
+                mp = wnio.write_resource({'lmf_version': v, 'lexicons': order}, work, random.Random(9), name='multi.xml')
+                try:
+                    lmf.load(mp, progress_handler=None)
+                except Exception:
+                    continue
+                p = subprocess.run([sys.executable, '-m', 'wn', 'validate', str(mp)], capture_output=True, text=True, timeout=120)
+                rec.event('cli.compared')
+                if (p.returncode == 0) != (clean and good_clean):
+                    rec.violation('cli-exit-status', f'python -m wn validate on a file with lexicons {[x["id"] for x in order]} exits {p.returncode}; '
+                                  f'reports empty: {[clean if x is lex else good_clean for x in order]}')
     finally:
         env.rmtree(work)
